@@ -14,15 +14,15 @@ Open Scope Z_scope.
 Theorem C10_limit : forall fuel m id s d ending s' d' y t,
   run_state fuel m id s d ending = ROk s' d' y t ->
   (forall e, ending = Some e -> Engine.sent s' <= e) /\
-  (forall n s1 d1 l, nth_error m id = Some n -> process n s d = Some (s1, d1) ->
-     resolve_lim (n_limit n) d1 = Some (Some l) -> Engine.sent s' <= Engine.sent s1 + l).
+  (forall n s1 d1 l dl, nth_error m id = Some n -> process n s d = Some (s1, d1) ->
+     resolve_lim (n_limit n) d1 = Some (Some l, dl) -> Engine.sent s' <= Engine.sent s1 + l).
 Proof. exact run_state_limit. Qed.
 Print Assumptions C10_limit.
 
 (* A limited parser that completes consumed a prefix k of the input with |k| <= limit, counted exactly |k| symbols,
    and left the following symbols, in order, to the enclosing grammar. *)
-Theorem C10_limited_parser : forall fuel m id n s d ending l s' d' y t,
-  nth_error m id = Some n -> n_proc n = PNone -> resolve_lim (n_limit n) d = Some (Some l) ->
+Theorem C10_limited_parser : forall fuel m id n s d ending l dl s' d' y t,
+  nth_error m id = Some n -> n_proc n = PNone -> resolve_lim (n_limit n) d = Some (Some l, dl) ->
   run_state fuel m id s d ending = ROk s' d' y t ->
   exists k, avail s = k ++ avail s' /\ Engine.sent s' = Engine.sent s + Z.of_nat (length k) /\ Z.of_nat (length k) <= l.
 Proof. exact limited_parser_bounded. Qed.
@@ -35,9 +35,14 @@ Proof. exact ending_only_shrinks. Qed.
 Print Assumptions C10_ending_only_shrinks.
 
 (* once limited, only the no-input edge is followed: the next symbol is not considered *)
-Theorem C10_limited_transition : forall n term s e,
+Theorem C10_limited_transition : forall n term s e d,
   e <= Engine.sent s ->
-  transition n term s (Some e) = if term && negb (n_greedy n) then None else lookup_edge NON (n_trans n).
+  transition n term s (Some e) d =
+    if term && negb (n_greedy n) then (None, d)
+    else match lookup_edge NON (n_trans n) with
+         | None => (None, d)
+         | Some cs => (Some (fst (decide_list cs d)), snd (decide_list cs d))
+         end.
 Proof. exact limited_transition. Qed.
 Print Assumptions C10_limited_transition.
 
@@ -78,10 +83,10 @@ Print Assumptions C10_peek_is_pure.
 Theorem C10_repeat_exact : forall f m id s d ending s' d' y,
   run_state (S f) m id s d ending = ROk s' d' y true ->
   forall n init rep, nth_error m id = Some n -> n_sub n = Some (init, rep) ->
-  exists s1 d1 d2 lm r,
-    process n s d = Some (s1, d1) /\ resolve_lim (n_limit n) d1 = Some lm /\ resolve_lim rep d1 = Some r /\
+  exists s1 d1 d1' d1'' d2 lm r,
+    process n s d = Some (s1, d1) /\ resolve_lim (n_limit n) d1 = Some (lm, d1') /\ resolve_lim rep d1' = Some (r, d1'') /\
     cycles_rel (fun cur s0 d0 => run_state f m cur s0 d0 (min_ending ending (Engine.sent s1) lm)) f init
-               (Z.to_nat (match r with None => 1 | Some z => z end)) s1 d1 s' d2.
+               (Z.to_nat (match r with None => 1 | Some z => z end)) s1 d1'' s' d2.
 Proof. exact repeat_exact. Qed.
 Print Assumptions C10_repeat_exact.
 
@@ -95,9 +100,9 @@ Print Assumptions C10_stalled_cycle_fails.
 (* non-vacuity: a length byte, then `len` octets under that limit, then the enclosing grammar's next byte *)
 Definition ex_machine : machine :=
   [ Node PNone true true LNone [] (Some (1%nat, LNone)) None;                          (* 0: outer dfa *)
-    Node (PInput (Some 0)) false true LNone [(NON, Some 2%nat)] None None;           (* 1: one byte into key 0 *)
-    Node PNone false true LNone [(NON, Some 3%nat)] None (Some (0, 1, 1, 0));          (* 2: key 1 := USINT of key 0 *)
-    Node PNone false true (LKey 1) [(NON, Some 5%nat)] (Some (4%nat, LKey 1)) None;    (* 3: dfa limit=len repeat=len *)
+    Node (PInput (Some 0)) false true LNone [(NON, [TState 2%nat])] None None;           (* 1: one byte into key 0 *)
+    Node PNone false true LNone [(NON, [TState 3%nat])] None (Some (0, 1, 1, 0));          (* 2: key 1 := USINT of key 0 *)
+    Node PNone false true (LKey 1) [(NON, [TState 5%nat])] (Some (4%nat, LKey 1)) None;    (* 3: dfa limit=len repeat=len *)
     Node (PInput (Some 2)) true true LNone [] None None;                               (* 4: octet *)
     Node (PInput (Some 3)) true true LNone [] None None ].                             (* 5: the byte after *)
 
